@@ -31,6 +31,11 @@ CHECKS = {
          "Data requests: repeated sources, multi-denom fee vectors, limits one unit short/exact/denom missing, poor payer failing at the k-th transfer, payer that is a treasury. Signings: limits at cost-1/cost/cost+, zero and multi-denom fee_per_signer, poor requester, retries and fallen signings; payouts only to the assigned members of the completing attempt; rejected requests move nothing.",
          "Worlds run with zero tx fees and no inflation so that balance deltas are exactly service fees. Incoming-group (unpaid) signings are monitored under C18; oracle-result signings under C08's union world.",
          "DESIGN.md 2/C13"),
+ "C16": ("exploration",
+         "runtime monitoring: sequential restake/staking model (delegations, stakes, locks per vault, vault flags, allowed denoms) vs. real txs and keeper calls; raw-store walks (Lock <-> LocksByPower bijection, module balance = sum of stakes) and byte-identical state after every rejected tx",
+         "Histories of stake/unstake/delegate/undelegate/redelegate/vote/lock updates from three vaults/vault deactivation/allowed-denom changes with amounts exactly at and one below the lock and powers above 2^63; every power-reducing operation must succeed exactly when the model power stays at or above the largest lock of an active vault, and a rejected attempt must change nothing.",
+         "Delegation power follows the code's reading (all delegations, rate 1, no slashing, nothing matures within a history). Redelegations whose intermediate state dips below the lock are left open. Found and fixed: duplicate allowed denoms (see known_findings.json).",
+         "DESIGN.md 2/C16"),
 }
 NA_REASON = "check not built yet (work in progress; see DESIGN.md section 2)"
 
